@@ -37,7 +37,9 @@ theorem toXML_roundtrip_partial (f : Finding) (h : RawOK f = true) : parseError 
   rw [readXml_toXML f h]
   exact readError_events f
 
-/-- … in particular the output is well-formed -/
+/-- … in particular the output is well-formed.  `wf` is acceptance by the model's reader `XmlRd`, a strict *subset* of
+    XML 1.0; that "XmlRd accepts ⇒ a conforming processor accepts, with the same content" is the trusted link, checked
+    on every run against expat (tie R: every real output, and mutated documents in that direction). -/
 theorem toXML_wf_partial (f : Finding) (h : RawOK f = true) : wf (toXML f) = true := by
   unfold wf
   rw [readXml_toXML f h]; rfl
@@ -137,11 +139,11 @@ example : rngPlain { id := "nullPointer".toList, severity := 1, cwe := 476, inco
 
 /-! ## SARIF output -/
 
-/-- **SARIF carries the located findings**: the result list is, in order, one result per finding with a call stack,
+/-- (tree level; `sarif_document` below connects it to the bytes)  **SARIF carries the located findings**: the result list is, in order, one result per finding with a call stack,
     and reading a result back gives the finding's id, short message, level (`sarifSeverity`) and per location the
     file, line and column (values below 1 written as 1). Findings *without* location are not in the report
     ("github only supports findings with locations"): `located`. -/
-theorem sarif_results (fs : List Finding) :
+theorem sarif_results_tree (fs : List Finding) :
     (results fs).map readResult = (located fs).map (fun f => some (expectedResult f)) := by
   unfold results
   rw [List.map_map]
@@ -150,7 +152,7 @@ theorem sarif_results (fs : List Finding) :
   exact readResult_resultJson f
 
 /-- the rules are the ids of the located findings, each once, and every result refers to one of them -/
-theorem sarif_rules (fs : List Finding) :
+theorem sarif_rules_tree (fs : List Finding) :
     (rules fs).map (fun j => (j.get "id").bind Json.strVal) = (firstOfId (located fs) []).map (fun f => some f.id) ∧
     ((firstOfId (located fs) []).map (fun f => f.id)).Nodup ∧
     ∀ f ∈ located fs, f.id ∈ (firstOfId (located fs) []).map (fun f => f.id) := by
@@ -173,10 +175,44 @@ theorem sarif_drops_unlocated :
 
 /-- **JSON strings are escaped faithfully**: for every byte string, a strict JSON string reader decodes what
     picojson's `serialize_str` wrote back to the same bytes (so quotes, backslashes, control bytes, DEL in messages,
-    ids and file names never break the document structure). Whole-document JSON well-formedness of
-    `serializeSarif` is not proved here (tie: python `json` on every generated report). -/
+    ids and file names never break the document structure). -/
 theorem sarif_string_roundtrip (s rest : Str) : jsonStrDecode ((jsonStr s).drop 1 ++ rest) = some (s, rest) :=
   jsonStr_decode s rest
+
+/-- **picojson's prettified serialisation is read back by a strict JSON reader**, for every tree (any strings, any
+    integers, any nesting). -/
+theorem json_serialize_roundtrip (j : Json) : jsonParse (serialize j) = some j :=
+  jsonParse_serialize j
+
+/-- **The SARIF document text is valid JSON and carries the located findings.**  The bytes `SarifReport::serialize`
+    returns (the hand-spliced `"version"` member included) parse, with a strict JSON reader, to the document object;
+    its `runs[0].results`, read back, are — in order — the expected result (id, short message, documented level
+    `Spec.level`, file / line / column per location) of every finding that has a call stack; its
+    `runs[0].tool.driver.rules` carry the pairwise distinct ids of those findings.
+    For *all* finding lists and all bytes in every string (the byte-level JSON grammar does not look at bytes ≥ 0x80:
+    whether the text is valid *UTF-8* is F26c, decided by P_impl). -/
+theorem sarif_document (name version : Str) (fs : List Finding) :
+    jsonParse (serializeSarif name version fs) = some (withVersion (doc name version fs)) ∧
+    ((jsonParse (serializeSarif name version fs)).bind reportResults).map (fun rs => rs.map readResult) =
+      some ((located fs).map (fun f => some (expectedResult f))) ∧
+    ((jsonParse (serializeSarif name version fs)).bind reportRules).map (fun rs => rs.map (fun j => (j.get "id").bind Json.strVal)) =
+      some ((firstOfId (located fs) []).map (fun f => some f.id)) := by
+  have hp : jsonParse (serializeSarif name version fs) = some (withVersion (doc name version fs)) := by
+    rw [serializeSarif_eq]; exact jsonParse_serialize _
+  refine ⟨hp, ?_, ?_⟩
+  · rw [hp]
+    have : reportResults (withVersion (doc name version fs)) = some (results fs) := by
+      simp [reportResults, withVersion, doc, Json.get, List.lookup]
+    simp only [Option.bind_some, this, Option.map_some]
+    rw [sarif_results_tree]
+  · rw [hp]
+    have : reportRules (withVersion (doc name version fs)) = some (rules fs) := by
+      simp [reportRules, withVersion, doc, Json.get, List.lookup]
+    simp only [Option.bind_some, this, Option.map_some]
+    rw [(sarif_rules_tree fs).1]
+
+/-- the level clause is the documented table, not the implementation's own function -/
+theorem sarif_level_spec (f : Finding) : sarifSeverity f = Spec.level f := sarifSeverity_eq_spec f
 
 /-! ## text output -/
 
@@ -261,6 +297,24 @@ example : (([{ id := "a".toList, severity := 1, shortMsg := "x".toList, verboseM
              { id := "b".toList, severity := 2, shortMsg := "y".toList, verboseMsg := "y".toList }] : List Finding).filter
             (fun f => f.severity ≠ 8)).map (fun f => (toString true (fun _ => []) f false "{id}:{message}".toList []).getD []) |>.Nodup := by
   decide +kernel
+
+/-- **Report level (XML)**: the `<error>` elements of a report are `toXML` of the findings the duplicate filter lets
+    through, in order.  If every finding of the run has plain unsanitised strings (`RawOK`), each of these elements is
+    accepted by the reader and carries exactly `sanitize f`; if moreover the text renderings of the non-internal
+    findings are pairwise distinct, the elements are those of *all* non-internal findings of the run, each once.
+    (Header and footer are two literals of `getXMLHeader/getXMLFooter`; they are composed with the real functions in
+    the CLI tie C5, not in Lean.) -/
+theorem xml_report_partial (render : Finding → Str) (fs : List Finding) (hraw : ∀ f ∈ fs, RawOK f = true) :
+    (stdLogger render fs).map (fun f => parseError (toXML f)) = (stdLogger render fs).map (fun f => some (sanitize f)) ∧
+    (((fs.filter (fun f => f.severity ≠ 8)).map render).Nodup →
+      (stdLogger render fs).map (fun f => parseError (toXML f)) =
+        (fs.filter (fun f => f.severity ≠ 8)).map (fun f => some (sanitize f))) := by
+  have h1 : (stdLogger render fs).map (fun f => parseError (toXML f)) = (stdLogger render fs).map (fun f => some (sanitize f)) := by
+    apply List.map_congr_left
+    intro f hf
+    exact toXML_roundtrip_partial f (hraw f (stdLoggerGo_mem render fs [] f hf).1)
+  refine ⟨h1, fun hnd => ?_⟩
+  rw [h1, stdLogger_all_partial render fs hnd]
 
 /-- the filter key is the *text*: two findings that differ only in a field the template does not show (here the CWE
     number under `{file}:{line}: {message} [{id}]`) reach the XML / SARIF writer as one -/
